@@ -296,3 +296,21 @@ fn k_collect_reflock_mutably_borrowed() {
         core::mem::forget(cx);
     }
 }
+
+
+/// SliceWithHeader with a header that holds a pointer and elements that need no tracing (and the reverse): both positions are reported
+#[kani::proof]
+#[kani::unwind(5)]
+fn k_collect_slice_with_header_positions() {
+    unsafe {
+        let cx = Context::new(); let mc = cx.mutation_context();
+        let g = mk(mc);
+        let s = GcSliceWithHeaderBuilder::<G, u8>::new(2).write_header(g[0]).write_slice_with(mc, |i| i as u8);
+        let mut r = Rec::new(); (*s).trace(&mut r);
+        assert!(seq(&r, &[a(g[0])], &[]), "[trace] SliceWithHeader<Gc, u8>: the header is reported although the elements need no tracing");
+        let s2 = GcSliceWithHeaderBuilder::<u8, W>::new(2).write_header(7).write_slice_with(mc, |i| Gc::downgrade(g[i + 1]));
+        let mut r = Rec::new(); (*s2).trace(&mut r);
+        assert!(seq(&r, &[], &[a(g[1]), a(g[2])]), "[trace] SliceWithHeader<u8, GcWeak>: the elements are reported although the header needs no tracing");
+        core::mem::forget(cx);
+    }
+}
